@@ -167,6 +167,7 @@ func c06(p *model.Prog, r *report.Result) {
 	c06r9(p, r, "C06.R9")
 	c12r8As(p, r, "C06.R10")
 	w6TsBase(p, r, "C06.R11")
+	w6ShiftWidth(p, r, "C06.R12", 0, "pkg/rtprtcp", "pkg/mpegts", "pkg/remux", "pkg/base", "pkg/avc", "pkg/hevc", "pkg/aac", "pkg/sdp", "pkg/hls")
 	r.Rule("C06.R7", "the frames cached by Rtmp2RtspRemuxer while it waits for the sequence headers, and everything else the remuxers keep, are copies of the message, not references into the caller's buffer (same propagation as C01.R7)")
 	retentionRule(p, r, "C06.R7", []retRoot{{p.Method("pkg/logic", "Group", "OnReadRtmpAvMsg"), 1}}, 40)
 	pcr := p.Func("pkg/mpegts", "packPcr")
@@ -299,6 +300,7 @@ func c07(p *model.Prog, r *report.Result) {
 	c07r11(p, r)
 	c07r12(p, r, "C07.R12")
 	w5FeedAvSize(p, r, "C07.R13")
+	w7PtsFieldWidths(p, r, "C07.R15", "pkg/gb28181")
 	w6ShiftWidth(p, r, "C07.R14", 0, "pkg/gb28181", "pkg/rtprtcp", "pkg/mpegts", "pkg/remux", "pkg/rtmp", "pkg/httpflv", "pkg/base", "pkg/avc", "pkg/hevc", "pkg/aac", "pkg/sdp", "pkg/rtsp", "pkg/hls", "pkg/logic")
 
 	// ---------------------------------------------------------------- R4
